@@ -1,5 +1,6 @@
 import XmppModel.Model.Muc
 import XmppModel.Lemmas.Muc
+import XmppModel.Generated.C18
 /-!
 # C18 — MUC membership follows the room's presence exactly
 
@@ -201,6 +202,92 @@ theorem C18_leave_success_iff {s a s'} (hs : step s a = some s') {c : Nat}
     (hnew : s'.lastLeave c = some .ok) (hold : s.lastLeave c ≠ some .ok) :
     a = .leaveDepart c ∧ s.depart c = true := by
   step_cases <;> grind
+
+/-! ### calls of one channel and the other channels (round C) -/
+
+/-- no call (`Join`, `Leave` and every way they end, clean-ups included) of channel `c` touches
+another channel `c'`: its membership, the address it holds, its departure token, its ghost — and
+its registration under the address it holds stays.  (Every clean-up of the code is guarded by "is
+the entry mine?"; this is the statement those guards exist for.) -/
+theorem C18_call_frame {s a s'} (hs : step s a = some s') {c c' : Nat}
+    (hcall : a.callOf = some c) (hne : c' ≠ c) :
+    s'.joined c' = s.joined c' ∧ s'.cur c' = s.cur c' ∧ s'.depart c' = s.depart c' ∧
+    s'.memberX c' = s.memberX c' ∧ s'.jpc c' = s.jpc c' ∧
+    (s.managed (s.cur c') = some c' → s'.managed (s.cur c') = some c') := by
+  step_cases <;> simp only [Act.callOf] at hcall <;> grind
+
+/-- in particular a `Leave` that the room answers with an error on a channel that does not hold
+the registration (its join failed or was refused, it has left) leaves the registration of the
+channel that does hold it alone … -/
+theorem C18_refused_leave_of_other_keeps_registration {s} {c c' : Nat} (hw : s.lpc c = .waiting)
+    (hm : s.managed (s.cur c) = some c') (hne : c' ≠ c) :
+    ∃ s', step s (.leaveError c) = some s' ∧ s'.managed = s.managed ∧ s'.joined c' = s.joined c' := by
+  have h : ¬ (s.managed (s.cur c) = some c) := by rw [hm]; intro h; injection h with h; exact hne h
+  simp [step, hw, h, upd, hne]
+
+/-- … so the occupant's unavailable presence still ends the membership of the joined channel,
+whatever calls other channels made in between (`Reach` covers them): in every reachable state a
+joined channel is one unavailable presence away from `Joined() = false` with the departure
+token left for `Leave` -/
+theorem C18_unavailable_ends_membership {addr0 s} (hr : Reach addr0 s) {c : Nat} (hj : s.joined c = true) :
+    ∃ s', step s (.unavail (s.cur c)) = some s' ∧ s'.joined c = false ∧ s'.depart c = true ∧
+      s'.managed (s.cur c) = none := by
+  have hm := (inv_reach hr).reg c hj
+  simp [step, hm, upd]
+
+example : ∃ s, run (init fun _ => 0)
+    [.joinStart 0 0, .joinError 0, .joinCleanup 0, .joinStart 1 0, .avail 0,
+     .leaveStart 0, .leaveError 0, .unavail 0] = some s ∧ s.joined 1 = false ∧ s.depart 1 = true := by
+  simp [run, step, init, upd]
+example : ∃ s, run (init fun _ => 0)
+    [.joinStart 0 0, .joinError 0, .joinCleanup 0, .joinStart 1 0, .avail 0,
+     .leaveStart 0, .leaveError 0] = some s ∧ s.joined 1 = true ∧ s.managed 0 = some 1 := by
+  simp [run, step, init, upd]
+
+/-- a pending `Join` can always end: by the error reply, by its context, and — while it is
+registered under the address it asked for — by the self-presence from that address; the two
+failures return after the clean-up -/
+theorem C18_join_returns {s} {c : Nat} (hp : s.jpc c = .pending) :
+    (∃ s', step s (.joinError c) = some s' ∧ s'.jpc c = .failing .stanzaErr) ∧
+    (∃ s', step s (.joinCancel c) = some s' ∧ s'.jpc c = .failing .ctxErr) ∧
+    (s.managed (s.req c) = some c → ∃ s', step s (.avail (s.req c)) = some s' ∧ s'.lastJoin c = some .ok) := by
+  refine ⟨by simp [step, hp, upd], by simp [step, hp, upd], ?_⟩
+  intro hm
+  simp [step, hm, hp, upd]
+
+/-! ### the payload of the room's presences (round C) -/
+
+/-- every name of XEP-0045 decodes to its own constant (so the decoders are the inverses of
+`String()` on the defined values) … -/
+theorem C18_affiliation_names_decode (a : Aff) : parseAff a.name = some a := by
+  cases a <;> decide
+
+theorem C18_role_names_decode (r : Role) : parseRole r.name = some r := by
+  cases r <;> decide
+
+/-- … hence every `<item/>` whose attributes are absent or carry a name of XEP-0045 — in
+particular `affiliation='outcast' role='none'`, the ban — decodes: the presence it arrives in is
+one of those the `avail` / `unavail` steps of the LTS stand for, never a handler error -/
+theorem C18_legal_item_decodes (a : Option Aff) (r : Option Role) :
+    decodeItem ⟨a.map Aff.name, r.map Role.name⟩ =
+      some ((match a with | some a => a | none => .none), (match r with | some r => r | none => .none)) := by
+  cases a <;> cases r <;> simp [decodeItem, C18_affiliation_names_decode, C18_role_names_decode]
+
+example : decodeItem ⟨some "outcast", some "none"⟩ = some (.outcast, .none) := by decide
+example : decodeItem ⟨some "bogus", none⟩ = none := by decide
+
+/-- probe fact: the real decoding of `<item affiliation=v/>` / `<item role=v/>` into `muc.Item`,
+run on the whole probe domain (all names of both enumerations and near misses), is `parseAff` /
+`parseRole` followed by the constant's value; absent attributes give the zero values -/
+theorem C18_gen_item_decoding :
+    Generated.C18.affiliationDecode = some (probeNames.map fun n => (n, (parseAff n).map Aff.code)) ∧
+    Generated.C18.roleDecode = some (probeNames.map fun n => (n, (parseRole n).map Role.code)) ∧
+    Generated.C18.absentDecode = some (Aff.none.code, Role.none.code) := by decide
+
+/-- probe fact: `String()` of the defined constants are the names of the model -/
+theorem C18_gen_item_names :
+    Generated.C18.affiliationNames = some (Aff.all.map fun a => (a.code, a.name)) ∧
+    Generated.C18.roleNames = some (Role.all.map fun r => (r.code, r.name)) := by decide
 
 /-! ### presences for rooms that were never joined, invitations -/
 
